@@ -16,7 +16,7 @@ from vf.par import pmap
 from vf.checks.C13 import dec, _eval_attr
 
 META = {
-    "ready": False,
+    "ready": True,
     "category": "model_checking",
     "technique": "TLA+ spec (VectorExpand.tla): declarative naming / element order / attribute-element correspondence vs. an operational model of Model._expand_vectors, model-checked by TLC over a bounded family; expected expanded lists replayed against generate(expand_vectors) and the expanded residual compared with the unexpanded one under the spec's renaming (oracle mode + differential)",
     "text": "TLC enumerates one array (1-D sizes 2,3; 2-D 2x2, 2x3, 3x2 in thorough) as algebraic / state / input / parameter / output variable with attribute patterns (none, each, array and matrix literals, parameter-dependent each / array expressions, lists of parameter expressions), arrays inside scalar and array component instances, Integer / Boolean arrays, several outputs, delay() of arrays; for each it checks that the modelled expansion produces the Modelica names in row-major order with the attribute element that belongs to each index and that the substituted matrix puts every scalar at the position of its own subscripts. The real expanded model must show exactly those names, order, attribute values (at 4 parameter points), outputs; its residuals at the renamed points must equal the unexpanded residuals; delay states / arguments must be renamed alike.",
